@@ -409,15 +409,16 @@ Row(fmt, dg) ==
    matc |-> Pick(MatSeq, dg[12]), ads |-> Pick(AdsSeq, dg[13]), rep |-> Pick(RepSeq, dg[14])]
 
 NDims == 14
-\* orthogonal array: column k of run (a, b) is a + k*b (+ a seeded shift) mod P; any two columns k1 # k2
-\* run through all P^2 pairs because (k1 - k2) is invertible mod P
-OADigit(k, a, b, seed) == (a + k * b + seed * (k + 1)) % P
+\* orthogonal array: column k of run (a, b) is a + k*b (+ a seeded shift per column) mod P; any two columns
+\* k1 # k2 run through all P^2 pairs because (k1 - k2) is invertible mod P.  The shift is quadratic in k so
+\* that different seeds give different arrays (a shift linear in k only renames the runs).
+OADigit(k, a, b, seed) == (a + k * b + seed * (k * k + 1)) % P
 OARow(fmt, a, b, seed) == Row(fmt, [k \in 1..NDims |-> OADigit(k, a, b, seed)])
 Pairwise(fmt, seed) == [i \in 1..(P * P) |-> OARow(fmt, (i - 1) \div P, (i - 1) % P, seed)]
 \* TLC-checked: every two columns of the array take all P^2 value pairs (so every pair of dimension values occurs)
 OAStrength2 ==
-  \A k1 \in 1..NDims : \A k2 \in (k1 + 1)..NDims :
-    Cardinality({<<OADigit(k1, a, b, 0), OADigit(k2, a, b, 0)>> : a \in 0..(P - 1), b \in 0..(P - 1)}) = P * P
+  \A sd \in 0..3 : \A k1 \in 1..NDims : \A k2 \in (k1 + 1)..NDims :
+    Cardinality({<<OADigit(k1, a, b, sd), OADigit(k2, a, b, sd)>> : a \in 0..(P - 1), b \in 0..(P - 1)}) = P * P
 DimSizesFit ==
   \A s \in {ClsSeq, PModeSeq, LBasisSeq, MBasisSeq, TClassSeq, PointLayouts, ModelLayouts, VCSeqX, KCSeq, ModelSeq,
             TargetSeq, SepSeq, MatSeq, AdsSeq} : Len(s) <= P
